@@ -99,7 +99,9 @@ type (
 		PKCounter   uint           `json:"pk"`
 		Accumulator *Accumulator   `json:"-"` // Accumulator contained in this instance, set by UnmarshalVerify()
 
-		verifiedWith *ecdsa.PublicKey // the key under which UnmarshalVerify() found the signature valid
+		// the key under which, and the signed bytes for which, the memoised Accumulator was obtained
+		verifiedWith *ecdsa.PublicKey
+		verifiedData signed.Message
 	}
 
 	// Event contains the data clients need to update to the Accumulator of the specified index,
@@ -193,7 +195,10 @@ func (acc *Accumulator) Sign(sk *gabikeys.PrivateKey) (*SignedAccumulator, error
 	if err != nil {
 		return nil, err
 	}
-	return &SignedAccumulator{Data: sig, PKCounter: sk.Counter, Accumulator: acc}, nil
+	// (what we signed ourselves needs no verification under our own key: concurrent users of the
+	// result then only read it)
+	return &SignedAccumulator{Data: sig, PKCounter: sk.Counter, Accumulator: acc,
+		verifiedWith: &sk.ECDSA.PublicKey, verifiedData: sig}, nil
 }
 
 // Remove generates a new accumulator with the specified e removed from it.
@@ -230,14 +235,15 @@ func (s *SignedAccumulator) UnmarshalVerify(pk *gabikeys.PublicKey) (*Accumulato
 		// a public key without a revocation part cannot have signed an accumulator
 		return nil, errors.New("public key does not support revocation")
 	}
-	// The memoised result only holds for the key it was obtained with
-	if s.Accumulator != nil && s.verifiedWith != nil && s.verifiedWith.Equal(pk.ECDSA) {
+	// The memoised result only holds for the key it was obtained with and for the bytes it was
+	// obtained from (another message may have been decoded into this object since)
+	if s.Accumulator != nil && s.verifiedWith != nil && s.verifiedWith.Equal(pk.ECDSA) && bytes.Equal(s.Data, s.verifiedData) {
 		return s.Accumulator, nil
 	}
 	if err := signed.UnmarshalVerify(pk.ECDSA, s.Data, msg); err != nil {
 		return nil, err
 	}
-	s.Accumulator, s.verifiedWith = msg, pk.ECDSA
+	s.Accumulator, s.verifiedWith, s.verifiedData = msg, pk.ECDSA, s.Data
 	return s.Accumulator, nil
 }
 
